@@ -789,6 +789,234 @@ def validate_traces(ck, traces, dev, quiet=False):
     return rejected
 
 
+# ================================================================================================ JBIG2 (extended coverage)
+JBIG2_SPEC = os.path.join(SPECS, "image", "MC_JBIG2.tla")
+JBIG2_TRACE_SPEC = os.path.join(SPECS, "image", "JBIG2Trace.tla")
+# deviations of jbig2.py / _save_jbig2 from T.88 modelled as coded (extended coverage: reported as notes, never as violations)
+JB_DEVS = ["RefWidth4", "Retain7Bits", "LongCountDropped", "PageAssocShort", "ZeroLenNoData", "GlobalsRstrip", "GlobalsRequired"]
+JBIG2_CONFIGS = {
+    "quick": [("refs", "NoGlobals", "RefLists", "DirectModes"), ("single", "NoGlobals", "SingleLists", "DirectModes"),
+              ("pages", "NoGlobals", "PageListsQuick", "WriteFileMode"), ("export", "GlobalChoices", "ExportLists", "ExportMode")],
+    "thorough": [("refs", "NoGlobals", "RefLists", "DirectModes"), ("single", "NoGlobals", "SingleLists", "DirectModes"),
+                 ("pages", "NoGlobals", "PageLists", "WriteFileMode"), ("export", "GlobalChoices", "ExportLists", "ExportMode"),
+                 ("export-pages", "GlobalOne", "PageListsQuick", "ExportMode")],
+}
+JBIG2_ACTIONS = ["AConcat", "AReadSegment", "AReadDone", "AWriteHeader", "AWriteSegment", "AWriteEOP", "AWriteEOF", "ARoundDone"]
+
+
+def ext(ck, key, n=1):
+    d = ck.extra.setdefault("extended_coverage", {})
+    d[key] = d.get(key, 0) + n
+
+
+def seg_py(s):
+    return {"num": s["num"], "type": s["type"], "deferred": s["deferred"], "palong": s["palong"], "page": s["page"], "refs": list(s["refs"]),
+            "retain": list(s["retain"]), "data": list(s["data"])}
+
+
+def jb_model_view(rec):
+    return rec["status"] if rec["phase"] == "error" else "ok", rec["parsed"] if rec["phase"] != "error" or rec["status"].startswith("write") else None, bytes(rec["out"])
+
+
+def replay_jbig2(ck, recs, outroot, label, notes):
+    ideal = recs[""]
+    coded = recs[dkey(JB_DEVS)]
+    mode = ideal["mode"]
+    gsegs = [seg_py(s) for s in ideal["gsegs"]]
+    isegs = [seg_py(s) for s in ideal["segs"]]
+    gx = b"".join(R.jb2_encode(s) for s in gsegs)
+    ix = b"".join(R.jb2_encode(s) for s in isegs)
+    # two references (TLA+ EncStd, Python jb2_encode) must agree
+    if mode != "export" or ideal["phase"] != "error":
+        if bytes(ideal["x"]) != gx + ix:
+            raise MachineryError("JBIG2 reference encoders disagree on %r" % (gsegs + isegs,))
+    if mode == "export":
+        outdir = tempfile.mkdtemp(dir=outroot)
+        err, files, _ = R.run_export(R.jbig2_doc(ix, gx if gsegs else None), outdir)
+        shutil.rmtree(outdir, ignore_errors=True)
+        real = ("ok" if not err else {"KeyError": "concat:KeyError" if not gsegs else "write:KeyError", "error": "write:struct.error"}.get(err.split("@")[0], err),
+                None, files.get("Im1.jb2", b"") if not err else b"")
+    else:
+        st, dicts, out = R.jbig2_direct(bytes(ideal["x"]), mode)
+        real = (st, [R.jbig2_dict_view(d) for d in dicts], out)
+
+    def same(rec):
+        mst = "ok" if rec["phase"] != "error" else rec["status"]
+        if real[0] != mst:
+            return False
+        if mst != "ok":
+            return True
+        if real[1] is not None and real[1] != rec["parsed"]:
+            return False
+        return real[2] == bytes(rec["out"])
+    ck.case(1, ("jbig2", label, json.dumps(ideal["gsegs"]), json.dumps(ideal["segs"]), mode))
+    # the file-level predicate, evaluated independently on the real result
+    if mode != "roundtrip" and real[0] == "ok":
+        try:
+            npages, got = R.jb2_parse_file(real[2])
+            if got != R.jb2_expected_file(gsegs + isegs):
+                ext(ck, "jbig2:file-parses-back-differently")
+        except (ValueError, IndexError, Exception):  # noqa: BLE001
+            ext(ck, "jbig2:file-does-not-parse")
+    if same(ideal):
+        return
+    singles = [d for d in JB_DEVS if d in recs and same(recs[d])]
+    if singles or same(coded):
+        blame = singles or [d for d in JB_DEVS if d in recs and json.dumps([recs[d]["phase"], recs[d]["status"], recs[d]["parsed"], recs[d]["out"]]) !=
+                            json.dumps([ideal["phase"], ideal["status"], ideal["parsed"], ideal["out"]])]
+        for d in blame or ["combination"]:
+            ext(ck, "jbig2:" + d)
+            if d not in notes:
+                notes.add(d)
+                ck.note("extended coverage (JBIG2, %s): %s on segments %s: the code gives %s, T.88 asks for %s"
+                        % (d, mode, json.dumps(ideal["gsegs"] + ideal["segs"])[:300], real[0] if real[0] != "ok" else real[2].hex()[:120],
+                           bytes(ideal["out"]).hex()[:120]))
+        return
+    ext(ck, "jbig2:unexplained")
+    if "unexplained" not in notes:
+        notes.add("unexplained")
+        ck.note("extended coverage (JBIG2): %s on %s: real %r explained by neither model (as coded: %s %s)"
+                % (mode, json.dumps(ideal["segs"])[:300], (real[0], real[2].hex()[:80]), coded["status"], bytes(coded["out"]).hex()[:80]))
+
+
+def direction_jbig2(ck):
+    R.jb2_self_check()
+    outroot = tempfile.mkdtemp(dir=ck.tmp)
+    notes = set()
+    sets = [[]] + [JB_DEVS] + [[d] for d in JB_DEVS]
+    devs = "{" + ", ".join("{" + ", ".join('"%s"' % d for d in ds) + "}" for ds in sets) + "}"
+    n_replayed = 0
+    for (label, glists, slists, modes) in JBIG2_CONFIGS[ck.tier]:
+        mod = "RunJ_" + label.replace("-", "_")
+        wrapper = os.path.join(ck.tmp, mod + ".tla")
+        with open(wrapper, "w") as f:
+            f.write("---- MODULE %s ----\nEXTENDS MC_JBIG2\nTheDevs == %s\n====\n" % (mod, devs))
+        cfg = write_cfg(os.path.join(ck.tmp, mod + ".cfg"),
+                        constants={"GlobalLists": "<- " + glists, "SegLists": "<- " + slists, "Modes": "<- " + modes, "DevChoices": "<- TheDevs"},
+                        invariants=["NoError", "ReaderInverts", "RoundTrip", "FileParsesBack", "RefsAgree"], constraints=["EmitTerminal"])
+        emit = os.path.join(ck.tmp, mod + ".ndjson")
+        cov = ck.tier == "quick" and label in ("export",)
+        res = run_tlc(wrapper, cfg, emit=emit, coverage=cov, timeout=3600, lib=LIB)
+        ck.add_tlc(res, "JBIG2 %s" % label)
+        if not res.ok:
+            raise MachineryError("JBIG2.tla violates %s on the intended design (%s):\n%s" % (res.violated, label, res.error_text[:3000]))
+        groups = {}
+        n = 0
+        for line in open(emit):
+            rec = json.loads(line)
+            n += 1
+            groups.setdefault(json.dumps([rec["gsegs"], rec["segs"], rec["mode"]], sort_keys=True), {})[dkey(rec["dev"])] = rec
+        os.remove(emit)
+        if n != res.emitted or n == 0:
+            raise MachineryError("emitted %d terminal states but read %d" % (res.emitted, n))
+        for gi, (key, recs) in enumerate(groups.items()):
+            replay_jbig2(ck, recs, outroot, label, notes)
+            n_replayed += 1
+            ck.replayed += 1
+    shutil.rmtree(outroot, ignore_errors=True)
+    ck.extra["jbig2_cases_replayed"] = n_replayed
+    jbig2_samples(ck)
+
+
+def jbig2_samples(ck):
+    """the JBIG2 images of the repository's samples: embedded segments vs the exported file, and header-level trace validation"""
+    from pdfminer.high_level import extract_pages
+    from pdfminer.jbig2 import JBIG2StreamReader, JBIG2StreamWriter
+    from pdfminer.layout import LTFigure, LTImage
+    from pdfminer.pdftypes import LITERALS_JBIG2_DECODE
+    traces = []
+    for fn in sorted(glob.glob("/repo/samples/**/*jbig2*.pdf", recursive=True)):
+        origin = os.path.relpath(fn, "/repo")
+        found = []
+
+        def walk(o):
+            for c in o:
+                if isinstance(c, LTImage):
+                    fl = c.stream.get_filters()
+                    if any(f in LITERALS_JBIG2_DECODE for f, _ in fl):
+                        gl = b""
+                        for f, params in fl:
+                            if f in LITERALS_JBIG2_DECODE and params and "JBIG2Globals" in params:
+                                gl += params["JBIG2Globals"].resolve().get_data()
+                        found.append((c.name, gl, c.stream.get_data()))
+                elif isinstance(c, LTFigure):
+                    walk(c)
+        with open(fn, "rb") as fh:
+            for page in extract_pages(fh):
+                walk(page)
+        for (imname, gl, data) in found:
+            try:
+                emb = R.jb2_parse(gl) + R.jb2_parse(data)
+            except ValueError as e:
+                ext(ck, "jbig2:sample-embedded-stream-unreadable")
+                ck.note("extended coverage (JBIG2): embedded stream of %s in %s not readable by the reference parser: %s" % (imname, origin, e))
+                continue
+            outdir = tempfile.mkdtemp(dir=ck.tmp)
+            err, files, _ = R.run_export(open(fn, "rb").read(), outdir)
+            shutil.rmtree(outdir, ignore_errors=True)
+            ck.case(1, ("jbig2-sample", origin, imname))
+            blob = next((v for k2, v in files.items() if k2.endswith(".jb2")), None)
+            if err or blob is None:
+                ext(ck, "jbig2:sample-export-failed")
+                ck.note("extended coverage (JBIG2): exporting %s of %s: %s" % (imname, origin, err))
+            else:
+                try:
+                    _, got = R.jb2_parse_file(blob)
+                    want = R.jb2_expected_file(emb if not gl.endswith(b"\n") else emb)
+                    if got != want:
+                        ext(ck, "jbig2:sample-file-parses-back-differently")
+                        ck.note("extended coverage (JBIG2): %s exported from %s holds segments %r, embedded are %r"
+                                % (imname, origin, [(s["num"], s["type"], len(s["data"])) for s in got], [(s["num"], s["type"], len(s["data"])) for s in want]))
+                    else:
+                        ck.extra["jbig2_sample_files_parse_back"] = ck.extra.get("jbig2_sample_files_parse_back", 0) + 1
+                except Exception as e:  # noqa: BLE001
+                    ext(ck, "jbig2:sample-file-does-not-parse")
+                    ck.note("extended coverage (JBIG2): %s exported from %s is not a readable JBIG2 file: %s" % (imname, origin, e))
+            # header-level trace: what the real reader / writer do with each embedded segment header
+            segs = []
+            pos = 0
+            stream = gl + data
+            dicts = JBIG2StreamReader(io.BytesIO(stream)).get_segments()
+            for s, d in zip(emb, dicts):
+                full = R.jb2_encode(s)
+                hb = full[:len(full) - len(s["data"])]
+                view = R.jbig2_dict_view(d)
+                view["data"] = []
+                try:
+                    wb = JBIG2StreamWriter(io.BytesIO()).encode_segment(d)
+                    ws, wb = "ok", wb[:len(wb) - len(d.get("raw_data", b""))]
+                except KeyError:
+                    ws, wb = "KeyError", b""
+                except Exception as e:  # noqa: BLE001
+                    ws, wb = "struct.error", b""
+                segs.append({"hb": list(hb), "rd": view, "ws": ws, "wb": list(wb)})
+            traces.append({"origin": origin + ":" + imname, "segs": segs})
+    if traces:
+        tf = os.path.join(ck.tmp, "c18_jbig2_traces.json")
+        with open(tf, "w") as f:
+            json.dump(traces, f)
+        cfg = write_cfg(os.path.join(ck.tmp, "c18_jbig2_trace.cfg"), constants={"Dev": tla_set(JB_DEVS)}, spec="Spec",
+                        invariants=["RefAgrees"], deadlock=True)
+        res = run_tlc(JBIG2_TRACE_SPEC, cfg, workers=1, env={"TRACE_FILE": tf}, timeout=600)
+        ck.add_tlc(res, "JBIG2 header traces of %d embedded streams" % len(traces))
+        if res.ok:
+            ck.traces += len(traces)
+            ck.extra["jbig2_sample_segments_validated"] = sum(len(t["segs"]) for t in traces)
+        else:
+            ext(ck, "jbig2:sample-trace-rejected")
+            st = res.error_trace[-1][1] if res.error_trace else {}
+            ck.note("extended coverage (JBIG2): header trace rejected (%s) at trace %s segment %s" % (res.violated, st.get("t"), st.get("k")))
+        # vacuity: a corrupted recording must be rejected
+        bad = json.loads(json.dumps(traces[:1]))
+        bad[0]["segs"][0]["rd"]["page"] += 1
+        with open(tf, "w") as f:
+            json.dump(bad, f)
+        res = run_tlc(JBIG2_TRACE_SPEC, cfg, workers=1, env={"TRACE_FILE": tf}, timeout=600)
+        if res.ok:
+            raise MachineryError("vacuous JBIG2 trace validation: a corrupted recording was accepted")
+        ck.extra["jbig2_corrupted_trace_rejected"] = True
+
+
 # ================================================================================================ entry points
 def run(ck):
     R.self_check()
@@ -816,7 +1044,8 @@ def run(ck):
     t0 = time.time()
     phases = {}
     for name, fn in (("teeth", lambda: (export_teeth(ck), inline_teeth(ck)) if ck.tier == "thorough" else None), ("export_replay", lambda: direction_a_export(ck, dimg)),
-                     ("inline_replay", lambda: direction_a_inline(ck, dinl)), ("sample_traces", lambda: direction_b(ck, dimg))):
+                     ("inline_replay", lambda: direction_a_inline(ck, dinl)), ("sample_traces", lambda: direction_b(ck, dimg)),
+                     ("jbig2_extended", lambda: direction_jbig2(ck))):
         fn()
         phases[name] = round(time.time() - t0, 1)
         t0 = time.time()
